@@ -204,7 +204,7 @@ def _gen_plugins(rng):
 
 def _gen_fault(rng):
     return {"site_pick": rng.random(), "idx_pick": rng.random() ** rng.choice([1, 1, 2]),
-            "exc": rng.choice(EXC_NAMES)}
+            "exc": rng.choice(EXC_NAMES), "kind_pick": rng.random()}
 
 
 def _gen_body(rng, depth=0):
@@ -249,6 +249,9 @@ def gen(rng: random.Random, tier: str) -> dict:
         if r < 0.45:
             m = rng.choice(METHODS)
             d = docgen.inline_source(rng) if "Inline" in m else docgen.document(rng, 3)
+            if rec["highlight"] is not None and "Inline" not in m and rng.random() < 0.5:
+                d += rng.choice(["```py info\ncode\n```\n", "> ~~~ js\n> x\n> ~~~\n", "- ```\n  y\n  ```\n"])
+                m = "render" if rng.random() < 0.8 else m
             ops.append(["call", m, d, _gen_fault(rng) if rng.random() < 0.75 else None])
         elif r < 0.75:
             ops.append(["reset", _gen_body(rng)])
@@ -269,6 +272,14 @@ def _resolve_fault(fault, counts: dict):
     sites = sorted(s for s, n in counts.items() if n > 0)
     if not sites:
         return None
+    # "kind_pick" first chooses the kind of user code (rule / render rule / highlight) so that the rarer kinds get
+    # their share of crash points; then the site within the kind
+    kp = fault.get("kind_pick")
+    if kp is not None:
+        kinds = sorted({s[0] for s in sites})
+        want = "highlight" if (kp < 0.12 and "highlight" in kinds) else ("render" if (kp < 0.40 and "render" in kinds) else "rule")
+        sub = [s for s in sites if s[0] == want]
+        sites = sub or sites
     site = sites[min(int(fault["site_pick"] * len(sites)), len(sites) - 1)]
     n = counts[site]
     return (site, 1 + min(int(fault["idx_pick"] * n), n - 1), fault["exc"])
@@ -468,7 +479,10 @@ class _Run:
                 self.plan.exc_obj = None
                 escaped = self.reset(op[1], k)
                 injected = self.body_exc or self.plan.exc_obj
-                if escaped is not None and injected is not None and escaped is not injected \
+                if escaped is None and injected is not None:
+                    res.fail("SWALLOWED", f"op {k}: {injected!r} raised inside the reset_rules block did not reach "
+                                          f"the caller of the with-statement", "reset_rules:exception")
+                elif escaped is not None and injected is not None and escaped is not injected \
                         and not (isinstance(escaped, ValueError) and "unknown rule" in str(escaped)):
                     res.fail("REPLACED", f"op {k}: reset_rules body raised {injected!r} but the caller received "
                                          f"{escaped!r}", "reset_rules:exception")
